@@ -222,6 +222,10 @@ try:
     subprocess.check_call(['git','-C',REPO,'worktree','add','-q','--detach',tmp+'/wt','HEAD'])
     wt=tmp+'/wt'
     for (mid,props,path,old,new,what) in HAND:
+        cached=f'{V}/mutants/hand/{mid}.diff'
+        if os.path.exists(cached) and subprocess.run(['git','-C',wt,'apply','--check',cached],capture_output=True).returncode==0:
+            index.append({"id":"hand-"+mid,"properties":props,"patch":f"mutants/hand/{mid}.diff","reverse":False,"what":what})
+            continue
         s=open(f'{wt}/{path}').read()
         if s.count(old)!=1:
             print('SKIP',mid,'anchor count',s.count(old)); continue
